@@ -40,7 +40,7 @@ func (g *Generator) parseManual(srcType, destType types.Type) []string {
 						recvTypeExpr = expr.X
 						isRecvPtr = true
 					default:
-						panic("can never happen")
+						//value receiver (or an instantiated receiver): the identity test below decides
 					}
 
 					recvType := pkg.TypesInfo.TypeOf(recvTypeExpr)
